@@ -231,6 +231,7 @@ mod kani_tcp {
         kani::assume(j_rx(&mut s, q, b, max_edge, peer_end)); // tag: pre
         // the peer's FIN has been consumed exactly in the states that say so
         kani::assume(state_consistent(&s)); // tag: pre
+        kani::assume(j_tx(&s, any_seq(), 0)); // tag: pre   (sender invariant: e.g. nothing is queued once our FIN is acknowledged)
 
         let mut cx = Context::kani_ctx(any_instant(), 1500, kani::any(), true);
         let pay: [u8; PAYMAX] = kani::any();
